@@ -1655,3 +1655,104 @@ Proof.
   unfold live_kv. rewrite live_kabs. simpl. unfold kvk. rewrite <- map_map.
   destruct stop; simpl; auto. destruct C0; simpl; auto. rewrite !firstn_map. reflexivity.
 Qed.
+
+(* ---------- any operation that is not an iterator operation; whole histories ---------- *)
+Theorem skip_step_ok : forall rc s C0 o orc, SGood s C0 -> is_iter_op o = false -> kstep_ok rc s C0 o orc.
+Proof.
+  intros rc s C0 o orc G H. destruct o; try discriminate.
+  - apply kstep_put; auto.
+  - apply (kstep_get rc s C0 k G).
+  - apply (kstep_rm rc s C0 k G).
+  - apply (kstep_count rc s C0 G).
+  - apply (kstep_foreach rc s C0 stop G).
+  - apply (kstep_notify_add rc s C0 k fn ev ud G).
+  - apply (kstep_notify_del rc s C0 k fn ev ud G).
+  - apply (kstep_destroy rc s C0 G).
+Qed.
+
+Lemma kdead_step : forall rc s C0 o orc, k_alive s = false ->
+  k_step kv_fixed rc s o orc = Ok (s, OIgnored, []) /\ a_step skip_before (rc4s rc) (kabs s C0) o = (kabs s C0, OIgnored, []).
+Proof. intros. destruct rc as [[e1 e2] e3]. unfold k_step, a_step. simpl. rewrite H. simpl. auto. Qed.
+
+Fixpoint ks_lockstep (rc : Z * Z * Z) (s : kstate) (C0 : list nat) (sp : sstate) (ops : list (op * list Z)) : Prop :=
+  match ops with
+  | [] => True
+  | (o, orc) :: t =>
+    match k_step kv_fixed rc s o orc with
+    | Err _ => False
+    | Ok (s', x, ns) =>
+      let '(sp', x', ns') := spec_step (fl_of (rc4s rc) (kabs s C0)) sp o in
+      x = out_wrap x' /\ ns = ns' /\ exists C0', ks_lockstep rc s' C0' sp' t
+    end
+  end.
+
+Definition no_iter_ops_k (ops : list (op * list Z)) : bool := forallb (fun p => negb (is_iter_op (fst p))) ops.
+
+Theorem skip_c17_from : forall rc ops s C0 sp,
+  (SGood s C0 \/ k_alive s = false) -> Inv17 (kabs s C0) sp -> no_iter_ops_k ops = true -> ks_lockstep rc s C0 sp ops.
+Proof.
+  induction ops as [|[o orc] ops]; simpl; intros s C0 sp HG HI HN; auto.
+  apply andb_true_iff in HN. destruct HN as [HN1 HN2]. apply negb_true_iff in HN1. simpl in HN1.
+  destruct HG as [HG|HD].
+  - destruct (skip_step_ok rc s C0 o orc HG HN1) as [s' [C0' [x [x' [ns [E1 [E2 [E3 E4]]]]]]]]. rewrite E1.
+    generalize (step17 skip_before (rc4s rc) (kabs s C0) sp o HI HN1). rewrite E2.
+    destruct (spec_step (fl_of (rc4s rc) (kabs s C0)) sp o) as [[sp' x''] ns'']. intros [Q1 [Q2 Q3]]. subst.
+    split; auto. split; auto. exists C0'. apply IHops; auto.
+  - destruct (kdead_step rc s C0 o orc HD) as [E1 E2]. rewrite E1.
+    generalize (step17 skip_before (rc4s rc) (kabs s C0) sp o HI HN1). rewrite E2.
+    destruct (spec_step (fl_of (rc4s rc) (kabs s C0)) sp o) as [[sp' x''] ns'']. intros [Q1 [Q2 Q3]]. subst.
+    split; auto. split; auto. exists C0. apply IHops; auto.
+Qed.
+
+Lemma sgood_create : SGood k_create [] /\ kabs k_create [] = r_init.
+Proof.
+  split.
+  - constructor.
+    + eexists. split; [reflexivity|]. simpl. auto.
+    + intros id [].
+    + constructor.
+      * intros id n [Hid|[]] N. subst id. inversion N; subst. simpl. eexists. split; [reflexivity|]. reflexivity.
+      * intros x y n m [Hx|[]] [Hy|[]]. congruence.
+    + constructor.
+    + intros l Hl. simpl. unfold fwd. simpl. unfold LEVEL_MAX in Hl.
+      do 9 (destruct l as [|l]; [reflexivity|]). lia.
+    + simpl. lia.
+    + reflexivity.
+    + reflexivity.
+    + reflexivity.
+    + intros h Q. inversion Q; subst. simpl. lia.
+  - reflexivity.
+Qed.
+
+(* C17 for the pointer-level skiplist model: for every history of put/get/rm/count/foreach/notify/destroy and EVERY
+   sequence of random() answers, no operation fails and outputs and notifier calls equal the specification's *)
+Theorem skip_c17 : forall rc ops, no_iter_ops_k ops = true -> ks_lockstep rc k_create [] s_init ops.
+Proof.
+  intros. destruct sgood_create as [G A]. apply skip_c17_from; auto. rewrite A. apply inv17_init.
+Qed.
+
+(* the traversal order used as the specification's order is ascending by key *)
+Lemma ss_kv : forall s l, StronglySorted (klt s) l ->
+  StronglySorted (fun a b : key * val => key_ltb (fst a) (fst b) = true) (map kv (map (sent s) l)).
+Proof.
+  intros s l SS. induction SS; simpl; constructor; auto.
+  apply Forall_forall. intros e He. apply in_map_iff in He. destruct He as [e0 [E1 E2]]. apply in_map_iff in E2. destruct E2 as [x [E3 E4]]. subst.
+  eapply Forall_forall in H; eauto. unfold klt in H. unfold kv. simpl. rewrite !sent_key. auto.
+Qed.
+
+Theorem skip_traversal_ascending : forall s C0, SGood s C0 ->
+  StronglySorted (fun a b => key_ltb (fst a) (fst b) = true) (live_kv (kabs s C0)).
+Proof. intros. unfold live_kv. rewrite live_kabs. simpl. apply ss_kv. apply (sg_sorted _ _ H). Qed.
+
+Require Import Verif.MapSkipProofs.
+
+Lemma ks_lockstep_no_error : forall ops s C0 sp, ks_lockstep rc_consts s C0 sp ops -> snd (k_run kv_fixed s ops) = None.
+Proof.
+  induction ops as [|[o orc] ops]; intros; auto. cbn [ks_lockstep k_run] in *.
+  destruct (k_step kv_fixed rc_consts s o orc) as [[[s' x] ns]|e]; try contradiction.
+  destruct (spec_step (fl_of (rc4s rc_consts) (kabs s C0)) sp o) as [[sp' x'] ns']. destruct H as [_ [_ [C0' H]]].
+  apply IHops in H. destruct (k_run kv_fixed s' ops). simpl in *. auto.
+Qed.
+
+Theorem skip_c17_no_error : forall ops, no_iter_ops_k ops = true -> snd (k_run kv_fixed k_create ops) = None.
+Proof. intros. eapply ks_lockstep_no_error. apply skip_c17; auto. Qed.
